@@ -14,7 +14,7 @@
     The cross-language comparison of the emitted .go/.kt/.py text is decided
     per case by checks/c20.py (the code generators are not modelled). *)
 From Coq Require Import Sorting.Permutation Sorting.Sorted.
-From Verif Require Import Model.Compile Spec.Placeholders Judge.JQ Judge.J03 Judge.J20 Proofs.PositionalFacts Proofs.CompileFacts Model.KtPyGen Proofs.GoStructFacts Proofs.KtPyFacts.
+From Verif Require Import Proofs.ResolveCompose Model.Compile Spec.Placeholders Judge.JQ Judge.J03 Judge.J20 Proofs.PositionalFacts Proofs.CompileFacts Model.KtPyGen Proofs.GoStructFacts Proofs.KtPyFacts.
 Open Scope string_scope.
 Open Scope list_scope.
 
@@ -149,3 +149,20 @@ Example C20_names_example :
   /\ kt_fields [(2, "n"); (2, "n"); (1, "n"); (3, "author_id"); (1, "n"); (4, "")]%Z = ["n_2"; "n"; "authorId"; "dollar4"]
   /\ py_args [(1, "n"); (2, "n"); (3, "author_id"); (4, "")]%Z = ["n"; "n_2"; "author_id"; "dollar_4"].
 Proof. vm_compute. repeat split; reflexivity. Qed.
+
+(** resolveCatalogRefs describes each reference on its own: what a reference list
+    yields is the concatenation of what its parts yield, so a placeholder that
+    occurs twice (positional mode hands the same reference over once per
+    occurrence) is described twice, identically - one bind per ? mark. *)
+Theorem C20_resolution_per_reference : forall e rvs names r1 r2,
+  resolve_catalog_refs e rvs (r1 ++ r2) names
+  = bind (resolve_catalog_refs e rvs r1 names) (fun a =>
+    bind (resolve_catalog_refs e rvs r2 names) (fun b => Ok (a ++ b))).
+Proof. exact resolve_refs_app. Qed.
+Print Assumptions C20_resolution_per_reference.
+
+Theorem C20_repeated_reference : forall e rvs names r ps,
+  resolve_catalog_refs e rvs [r] names = Ok ps ->
+  resolve_catalog_refs e rvs [r; r] names = Ok (ps ++ ps).
+Proof. exact resolve_refs_repeat. Qed.
+Print Assumptions C20_repeated_reference.
